@@ -14,6 +14,10 @@
 #include <pthread.h>
 #include "qlibc.h"
 #include "vfc.h"
+/* the print helpers (debug()) run on real contents now and then: C11 covers what they read */
+static FILE *DEVNULL; static unsigned long DBGCTR;
+#define DEBUG_NOW() (((++DBGCTR) % 61) == 0 && (DEVNULL || (DEVNULL = fopen("/dev/null", "w"))))
+
 
 /* ------------------------------------------------------------------ orderings */
 typedef int (*cmp_t)(const void *, size_t, const void *, size_t);
@@ -248,7 +252,11 @@ static void lookup_cost_check(int id) {
 /* ------------------------------------------------------------------ C01 content oracle */
 /* a stored value of length 0 is legal (putobj(name, size, NULL, 0), putstr(name, NULL)): the key is present, reads deliver no bytes */
 static bool val_ok(const void *d, size_t sz, int p) { return ME[p].vl == 0 ? (d == NULL && sz == 0) : (d != NULL && sz == ME[p].vl && !memcmp(d, ME[p].v, sz)); }
+
+/* optional out-parameters are NULL in one call out of four; the variable is preset to what the callee would have stored */
+static size_t *optout(size_t *p, size_t expect) { if (rng_chance(&R, 1, 4)) { *p = expect; vf_count("calls_with_null_out_parameter", 1); return NULL; } return p; }
 static void content_check(void) {
+    if (DEBUG_NOW()) { T->debug(T, DEVNULL); vf_count("debug_prints", 1); }
     vf_count("content_compares", 1);
     if (T->size(T) != (size_t)MN) { judge("C01", "size", "size()=%zu model=%d", T->size(T), MN); return; }
     for (int id = 0; id < NU; id++) {
@@ -262,14 +270,14 @@ static void content_check(void) {
         } else if (d) { judge("C01", "phantom-key", "absent key %d (%s) found", id, vf_hex(UK[id].k, UK[id].kl)); return; }
     }
     size_t ns = 0; errno = 0;
-    void *mn = T->find_min(T, &ns);
+    void *mn = T->find_min(T, optout(&ns, MN ? UK[ME[0].id].kl : 0));
     if (MN == 0) { if (mn) { judge("C01", "find_min", "find_min on empty table returned a key"); free(mn); return; }
                    if (errno != ENOENT) { judge("C01", "find_min-errno", "find_min on empty table: errno=%d", errno); return; } }
     else { ukey_t *e = &UK[ME[0].id];
         if (!mn || ns != e->kl || memcmp(mn, e->k, ns)) { judge("C01", "find_min", "find_min returned %s expected %s", vf_hex(mn, mn ? ns : 0), vf_hex(e->k, e->kl)); free(mn); return; } }
     free(mn);
     ns = 0; errno = 0;
-    void *mx = T->find_max(T, &ns);
+    void *mx = T->find_max(T, optout(&ns, MN ? UK[ME[MN - 1].id].kl : 0));
     if (MN == 0) { if (mx) { judge("C01", "find_max", "find_max on empty table returned a key"); free(mx); return; }
                    if (errno != ENOENT) { judge("C01", "find_max-errno", "find_max on empty table: errno=%d", errno); return; } }
     else { ukey_t *e = &UK[ME[MN - 1].id];
@@ -333,8 +341,8 @@ static void op_get(int id) {
     vf_log("get[%d,newmem=%d] k%d", api, newmem, id);
     oom_begin();
     switch (api) {
-    case 0: d = T->getobj(T, kb.p, kb.n, &sz, newmem); break;
-    case 1: d = T->get(T, (char *)kb.p, &sz, newmem); break;
+    case 0: d = T->getobj(T, kb.p, kb.n, optout(&sz, f ? ME[p].vl : sz), newmem); break;
+    case 1: d = T->get(T, (char *)kb.p, optout(&sz, f ? ME[p].vl : sz), newmem); break;
     default: d = T->getstr(T, (char *)kb.p, newmem); sz = d ? strlen((char *)d) + 1 : 0; break;
     }
     int e = errno;
